@@ -82,7 +82,8 @@ Print Assumptions C18_crash_others_unchanged.
    bytes, or absent); or a PREFIX of the new bytes (the whole of them when the
    write completed) - for uncompressed files a truncated file is returned
    as-is and detecting it is the decoder's job (length check); or a
-   detectable error.  Hypotheses on the oracles: gunzip inverts gz; an
+   data-access error (a truncated or corrupt .gz is reported as
+   DataAccessError).  Hypotheses on the oracles: gunzip inverts gz; an
    interrupted plain write leaves a prefix; a truncated gzip stream does not
    gunzip to anything but the full payload or (zero-length file) the empty
    string; an empty file reads as empty data. *)
@@ -145,12 +146,13 @@ Theorem C18_overwrite_not_atomic_refuted :
 Proof. exact overwrite_not_atomic_refuted. Qed.
 Print Assumptions C18_overwrite_not_atomic_refuted.
 
-(* finding truncated-gz-eoferror *)
-Theorem C18_truncated_gz_refuted :
+(* a .gz left truncated by a failed write: the next fetch reports a
+   data-access error *)
+Theorem C18_truncated_gz_detected :
   let '(r, t2) := run_fault blob (BPlain []) (BCut 2) 2 ENOSPC g_tree (g_store true [2; 3] false) in
-  r = AccessErr /\ g_fetch true t2 = Crash EOFError.
-Proof. exact truncated_gz_refuted. Qed.
-Print Assumptions C18_truncated_gz_refuted.
+  r = AccessErr /\ g_fetch true t2 = AccessErr.
+Proof. exact truncated_gz_detected. Qed.
+Print Assumptions C18_truncated_gz_detected.
 
 (* a zero-length .gz reads back as empty data (covered by crash_ok's prefix
    clause; detection is the decoder's length check) *)
@@ -160,14 +162,30 @@ Theorem C18_empty_gz_reads_empty :
 Proof. exact empty_gz_refuted. Qed.
 Print Assumptions C18_empty_gz_reads_empty.
 
-(* finding missing-shard-assertion (HTTP 404 on the shard files surfaces as
-   AssertionError) *)
-Theorem C18_missing_shard_assertion_refuted :
+(* sharded HTTP reader under ANY stateless server behaviour (scripted
+   statuses, dropped connections, short / over-long / ignored ranges): its
+   result is the shard algorithm over the server's answers, in which a
+   failing probe or read is an I/O error - so the outcome is data computed
+   from replies of the right length, or an error of the algorithm; a missing
+   shard is an I/O error *)
+Theorem C18_sharded_http_faults :
+  forall (B : Type) (plain : list N -> B) (gunzip : B -> gzres) (unplain : B -> option (list N))
+         idx_decode locate data_decode (srv : server B),
+  (forall n m r, srv n r = srv m r) ->
+  forall scale_url shard_name hl cmc n,
+  fst (hrun B srv n (hs_fetch B plain gunzip unplain idx_decode locate data_decode scale_url shard_name hl cmc))
+  = omap B plain (shard_fetch_pure idx_decode locate data_decode
+            (fun suffix => http_ex B srv ((scale_url ++ shard_name) ++ suffix))
+            (http_rd B plain gunzip unplain srv (scale_url ++ shard_name) hl) IOErr hl cmc).
+Proof. exact hs_fetch_is_algo. Qed.
+Print Assumptions C18_sharded_http_faults.
+
+Theorem C18_missing_shard_is_io_error :
   fst (hrun blob w_all_404 0
          (hs_fetch blob BPlain (blob_gunzip []) w_unplain (fun b => Some b) w_locate (fun b => Ok b)
-                   false [104;47;107;47] [48] 16 0)) = Crash AssertionError.
-Proof. exact missing_shard_assertion_refuted. Qed.
-Print Assumptions C18_missing_shard_assertion_refuted.
+                   [104;47;107;47] [48] 16 0)) = IOErr.
+Proof. exact missing_shard_io_error. Qed.
+Print Assumptions C18_missing_shard_is_io_error.
 
 (* non-vacuity of the oracle hypotheses of C18_crash_safe *)
 Example C18_crash_hyps_example :
